@@ -222,16 +222,7 @@ def stable_inputs(g, recs):
     return out
 
 
-def reads_for(g, recs, rng):
-    reads = []
-    for w, s, e, f in recs:
-        seq = g.spell(w)[s:e]
-        if len(seq) > 3 and rng.random() < 0.4:  # a mismatch or a deletion so that the CIGAR is not trivial
-            k = rng.randint(1, len(seq) - 2)
-            seq = seq[:k] + ("" if rng.random() < 0.5 else {"A": "C", "C": "G", "G": "T", "T": "A"}[seq[k]]) + seq[k + 1:]
-        seq += "ACGT"[: max(0, int(f[1]) - len(seq))] + "A" * 4
-        reads.append([T.cut_name(f[0]), seq])
-    return reads
+reads_for = T.reads_for
 
 
 # ---- run ---------------------------------------------------------------------------------------------------
@@ -284,6 +275,7 @@ def run(ctx):
             st = T.lines_of(open(os.path.join(d, "out.gaf")).read())  # gaftools' own stable records, now an input
             evaluate(ctx, "view-format", {"kind": "view-format", "gfa": gfa, "gaf": st, "format": "unstable", "bgzf": bg}, d=d)
             evaluate(ctx, "view-node-format", {"kind": "view-select", "gfa": gfa, "gaf": st, "nodes": used, "format": "unstable", "bgzf": bg}, d=d)
+            evaluate(ctx, "view-node", {"kind": "view-select", "gfa": gfa, "gaf": st, "nodes": used, "bgzf": bg}, d=d)
         evaluate(ctx, "view-format", {"kind": "view-format", "gfa": gfa, "gaf": stable_inputs(g, recs), "format": "unstable"}, d=d)
         if ctx.out_of_time(45 if q else 500):
             break
